@@ -59,6 +59,10 @@ def ds_spec(draw, numeric=False, min_vars=1, all_have=None, square=False):
             vd.append(all_have)
         out.append(["v%d" % i, {"dims": vd, "labels": [dlabels[d] for d in vd], "vk": draw(st.sampled_from("ffi")), "base": 10 * i + draw(st.integers(0, 5)),
                                 "attrs": {"units": "u%d" % i, "only_v%d" % i: i}}])
+        if out[-1][1]["vk"] == "f" and vd and draw(st.integers(0, 3)) == 0:
+            ncell_ = int(np.prod([len(dlabels[d]) for d in vd]))
+            if ncell_ >= 2:
+                out[-1][1]["nan"] = draw(st.lists(st.integers(0, ncell_ - 1), min_size=1, max_size=max(1, ncell_ // 2), unique=True))      # missing values in some float variables
     # make sure every dataset dim is used (otherwise it is not a dataset dim)
     used = {d for _, s in out for d in s["dims"]}
     dsdims = [d for d in dsdims if d in used]
@@ -119,6 +123,11 @@ def case_st(draw):
         method = draw(st.sampled_from([None, None, None, "left", "right"]))
         if kind == "i" and draw(st.integers(0, 3)) == 0:
             new = [float(x) for x in new]       # the labels of an integer axis requested as floats
+        if kind == "s" and draw(st.integers(0, 2)) == 0:
+            # absent labels that are proper prefixes of existing ones ('run1' next to 'run10'), shorter than every label that is asked for besides
+            pre = [x[:-1] for x in labs if len(x) >= 2 and x[:-1] not in labs and x[:-1] not in new]
+            if pre:
+                new = list(dict.fromkeys(pre[:2])) + [x for x in new if len(x) <= len(pre[0])][:1]
         p = {"new": new, "fill": draw(st.sampled_from(["nan", "nan", -1, 0])), "raise_error": draw(st.sampled_from([False, False, True])) if method is None else False,
              "method": method, "as": draw(st.sampled_from(["list", "axis"])), "by": draw(st.sampled_from(["name", "pos"]))}
     elif op == "reindex_like":
@@ -201,12 +210,12 @@ def enumerate_cases(tier):
                      ["v1", {"dims": ["y", "x"], "labels": [ly, lx], "vk": "f", "base": 20, "attrs": {"units": "b"}}],
                      ["v2", {"dims": ["y"], "labels": [ly], "vk": "i", "base": 40, "attrs": {}}],
                      ["v3", {"dims": [], "labels": [], "vk": "f", "base": 50, "attrs": {}}],
-                     ["v4", {"dims": ["x"], "labels": [lx], "vk": "f", "base": 60, "attrs": {}}]]
+                     ["v4", {"dims": ["x"], "labels": [lx], "vk": "f", "base": 60, "attrs": {}, "nan": [0]}]]       # (a float variable with a NaN AFTER the integer one)
         ds = {"vars": variables, "attrs": dict(DS_ATTRS)}
         for d in ("x", "y"):
             labs = dlab[d]
             for by in ("pos", "name"):
-                ps = [("reduce", {"f": f, "by": by, "skipna": False}) for f in ("mean", "std", "var", "median", "sum")]
+                ps = [("reduce", {"f": f, "by": by, "skipna": sk}) for f in ("mean", "std", "var", "median", "sum") for sk in (False, True)]
                 ps += [("take_axis", {"indices": [labs[-1], labs[0]], "indexing": "label", "by": by}), ("take_axis", {"indices": [1, 0, 1], "indexing": "position", "by": by}),
                        ("take_axis", {"indices": [-1, 0, 9], "indexing": "position", "by": by, "mode": "clip"}),
                        ("take_axis", {"indices": [-4, 1, 5], "indexing": "position", "by": by, "mode": "wrap"}),
